@@ -40,4 +40,10 @@ m = {
     "notes": "All checks share one build (flock). known_findings.json lists recorded findings and repaired defects.",
 }
 json.dump(m, open(os.path.join(V, "MANIFEST.json"), "w"), indent=1)
+# known_findings.json is assembled from the per-property fragments known_findings.d/Cxx.json
+# (at commit time, by this script -- never at run time)
+kf = []
+for f in sorted(glob.glob(os.path.join(V, "known_findings.d", "C*.json"))):
+    kf += json.load(open(f))
+json.dump(kf, open(os.path.join(V, "known_findings.json"), "w"), indent=1, ensure_ascii=False)
 print("MANIFEST.json:", len(checks), "claimed,", len(na), "not claimed")
